@@ -217,8 +217,12 @@ def project_call(c: Dict[str, Any], tid: int, api: Optional[Dict[str, Any]] = No
         req_kept = abs(maxr - api["range_ft_asked"]) <= 1e-9 * max(1.0, abs(api["range_ft_asked"]))
         if api.get("step_ft_asked") is not None and rec:
             req_kept = req_kept and abs(step - api["step_ft_asked"]) <= 1e-9 * max(1.0, abs(api["step_ft_asked"]))
+        if api.get("time_step_asked") is not None:
+            req_kept = req_kept and float(tstep) == float(api["time_step_asked"])
+    extra_kept = True if api.get("extra_asked") is None else (bool(extra) == bool(api["extra_asked"]))
     lines: List[Dict[str, Any]] = [{
         "tid": tid, "ev": "Begin", "rec": rec, "timed": timed, "extra": extra, "Klo": Klo, "Khi": Khi, "requestKept": bool(req_kept),
+        "extraKept": bool(extra_kept),
         "stepGEmax": bool(step >= max_step * (1 - 1e-12)),
         # the first multiple beyond the range may be recorded only if it lies within one integration step of it
         "beyondOK": bool(rec and Klo * step <= maxr + max_step + band(maxr)), "muzzleSide": 1 if y0 >= 0 else -1,
